@@ -5,6 +5,7 @@ import ast
 
 from .. import astutil as A
 from .. import cfgq as Q
+from ..loader import AnalysisError
 from . import common as K
 from .c13 import serve_slots
 
@@ -21,7 +22,17 @@ def run(ctx, rep):
     rep.rule("R14.3", "a thread that loses the try-lock sleeps on the condition (with the remaining time), not on the channel")
     rep.assume("the actual latency is not decided, only the ordering that causes the stall")
 
-    f, g, lock, cond, acq, acq_nodes, acq_edges, fail_edges, rel_nodes, held = serve_slots(ctx)
+    from .c13 import blocking_lock_escape
+    esc = blocking_lock_escape(ctx, rep, "R14.3")
+    if not esc:
+        rep.ob("R14.3", "Connection.serve: the receive lock is only ever try-acquired (a waiter sleeps on the condition, never on "
+               "the lock)", True, "no helper is handed the lock with a blocking flag", ctx.func(K.CONN + ".serve").loc, kind="site")
+    try:
+        f, g, lock, cond, acq, acq_nodes, acq_edges, fail_edges, rel_nodes, held = serve_slots(ctx)
+    except AnalysisError as e_:
+        if esc:
+            return          # the violation stands; the rest of serve()'s discipline cannot be located
+        raise
     rep.analysed(f, g)
     rx = [n for n in g.live if n.ast is not None and n.kind in ("stmt", "test") and A.find_calls(n.ast, "self._channel.recv")]
     disp = [n for n in g.live if n.ast is not None and n.kind in ("stmt", "test") and A.find_calls(n.ast, "self._dispatch")]
